@@ -306,7 +306,7 @@ fn expect(word: &str, ops: &[V]) -> Exp {
                         } else {
                             // floor division of a negative number
                             let m = a.unsigned_abs();
-                            let q = (m + d - 1) / d;
+                            let q = m / d + if m % d != 0 { 1 } else { 0 };
                             Exp::Int((q as i128).wrapping_neg())
                         }
                     }
